@@ -1,13 +1,24 @@
 (* C17 model driver: same line protocol as harness/drivers/c17_driver.c; writes go
    through r_log / t_log (format, truncate at code_msg_max_len, write); at the
-   end of a case the model's file map is printed as the same canonical dump. *)
+   end of a case the model's file map (all directories) is printed as the same
+   canonical dump.  The handler runs inside the directory-level model rg_* / tg_*
+   (path resolved at init, chdir operations). *)
 let simple_prefix = "INFO|c.c:1 - "
 
 type st =
   | Nothing
-  | Rot of { raw : bool; bc : int; pre : sname fsys; h : rh option }
-  | Trot of { raw : bool; u : tunit; md : z; local : bool; tz : z; th : th option }
+  | Rot of { raw : bool; bc : int; p : parg; cwd : z; pre : sname gfsys; g : (sname, rh) gst option }
+  | Trot of { raw : bool; u : tunit; md : z; local : bool; tz : z; p : parg; cwd : z; g : (tname, th) gst option }
   | Bad
+
+(* path argument of the handler, see the C driver *)
+let parg_of = function
+  | "abs" -> PAbs (Dir (Z0, Z0))
+  | "abssub" -> PAbs (Dir (Z0, z_of_int 1))
+  | "sub" -> PRel (z_of_int 1)
+  | _ -> PRel Z0            (* rel, dot *)
+let dir_str (Dir (r, s)) = "d" ^ string_of_z r ^ (if int_of_z s = 1 then "/sub/dir" else "")
+let bsz = code_msg_max_len
 
 let sname_str = function SLive -> "log.txt" | SBak i -> Printf.sprintf "log.txt.%d" (int_of_nat i)
 let tname_str (n : tname) : string =
@@ -37,65 +48,88 @@ let handle (lines : string list) : unit =
   List.iter (fun l ->
     let ws = words l in
     match !st, ws with
-    | Nothing, [ "rot"; f; bc ] -> st := Rot { raw = (f = "raw"); bc = int_of_string bc; pre = []; h = None }
-    | Nothing, [ "trot"; f; u; md; loc; tz ] ->
+    | Nothing, "rot" :: f :: bc :: rest ->
+      let sp = (match rest with x :: _ -> x | [] -> "abs") in
+      st := Rot { raw = (f = "raw"); bc = int_of_string bc; p = parg_of sp; cwd = Z0; pre = []; g = None }
+    | Nothing, "trot" :: f :: u :: md :: loc :: tz :: rest ->
+      let sp = (match rest with x :: _ -> x | [] -> "abs") in
       let u = (match u.[0] with 's' -> USec | 'm' -> UMin | 'h' -> UHour | _ -> UDay) in
-      st := Trot { raw = (f = "raw"); u; md = z_of_string md; local = (loc <> "0"); tz = z_of_string tz; th = None }
+      st := Trot { raw = (f = "raw"); u; md = z_of_string md; local = (loc <> "0"); tz = z_of_string tz;
+                   p = parg_of sp; cwd = Z0; g = None }
     | Nothing, _ :: _ -> print_endline "badheader"; st := Bad
     | Bad, _ -> ()
     | _, [] -> ()
     | _, [ ("civil" | "lcivil") as op; s ] ->
       let tz = (match !st with Trot t -> t.tz | _ -> Z0) in
       print_tm op (if op = "civil" then gmtime (z_of_string s) else localtime tz (z_of_string s))
+    | Rot r, [ "chdir"; k ] ->
+      (match r.g with
+       | None -> st := Rot { r with cwd = z_of_string k }
+       | Some g -> st := Rot { r with g = Some (rg_step bsz g (GChdir (z_of_string k))) });
+      print_endline "chdir 0"
+    | Trot t, [ "chdir"; k ] ->
+      (match t.g with
+       | None -> st := Trot { t with cwd = z_of_string k }
+       | Some g -> st := Trot { t with g = Some (tg_step bsz g (GChdir (z_of_string k))) });
+      print_endline "chdir 0"
     | Rot r, "pre" :: sfx :: items ->
-      if r.h <> None then print_endline "pre ignored"
+      if r.g <> None then print_endline "pre ignored"
       else begin
         let name = if sfx = "-" then SLive else SBak (nat_of_int (int_of_string sfx)) in
         let ls = List.filter_map (fun it ->
           match String.split_on_char ':' it with
           | [ id; len ] -> Some { m_id = z_of_string id; m_len = z_of_string len; m_ts = Z0 }
           | _ -> None) items in
-        st := Rot { r with pre = fs_put sname_eqb name ls r.pre };
+        let d = resolve r.cwd r.p in
+        st := Rot { r with pre = g_set d (fs_put sname_eqb name ls (g_dir d r.pre)) r.pre };
         print_endline "pre ok"
       end
     | Trot _, "pre" :: _ -> print_endline "pre ignored"
     | Rot r, [ "open"; a ] ->
-      if r.h <> None then print_endline "open ignored"
-      else begin st := Rot { r with h = Some (r_init r.pre (z_of_string a) (nat_of_int r.bc)) }; print_endline "open 0" end
+      if r.g <> None then print_endline "open ignored"
+      else begin
+        st := Rot { r with g = Some (rg_start r.pre r.cwd r.p (z_of_string a) (nat_of_int r.bc)) };
+        print_endline "open 0" end
     | Trot t, [ "open"; a ] ->
-      if t.th <> None then print_endline "open ignored"
-      else begin st := Trot { t with th = Some (t_init [] (z_of_string a) t.u t.md t.local t.tz) }; print_endline "open 0" end
+      if t.g <> None then print_endline "open ignored"
+      else begin
+        st := Trot { t with g = Some (tg_start [] t.cwd t.p (z_of_string a) t.u t.md t.local t.tz) };
+        print_endline "open 0" end
     | Rot r, [ "restart"; a ] ->
-      (match r.h with
+      (match r.g with
        | None -> print_endline "restart ignored"
-       | Some h -> st := Rot { r with h = Some (r_restart h (z_of_string a)) }; print_endline "restart 0")
+       | Some g -> st := Rot { r with g = Some (rg_step bsz g (GRestart (z_of_string a))) }; print_endline "restart 0")
     | Trot t, [ "restart"; a ] ->
-      (match t.th with
+      (match t.g with
        | None -> print_endline "restart ignored"
-       | Some h -> st := Trot { t with th = Some (t_restart h (z_of_string a)) }; print_endline "restart 0")
+       | Some g -> st := Trot { t with g = Some (tg_step bsz g (GRestart (z_of_string a))) }; print_endline "restart 0")
     | Rot r, "w" :: args ->
-      (match r.h, args with
+      (match r.g, args with
        | None, _ -> print_endline "w ignored"
-       | Some h, [ id; len ] ->
-         let (h', n) = r_log code_msg_max_len h { m_id = z_of_string id; m_len = z_of_string len; m_ts = Z0 } in
-         st := Rot { r with h = Some h' }; Printf.printf "w %s\n" (string_of_z n)
+       | Some g, [ id; len ] ->
+         let m = { m_id = z_of_string id; m_len = z_of_string len; m_ts = Z0 } in
+         let n = snd (r_log bsz g.gs_h m) in
+         st := Rot { r with g = Some (rg_step bsz g (GWrite m)) }; Printf.printf "w %s\n" (string_of_z n)
        | Some _, _ -> print_endline "w bad")
     | Trot t, "w" :: args ->
-      (match t.th, args with
+      (match t.g, args with
        | None, _ -> print_endline "w ignored"
-       | Some h, [ id; len; ts; clock ] ->
-         let (h', n) = t_log code_msg_max_len h (z_of_string clock) { m_id = z_of_string id; m_len = z_of_string len; m_ts = z_of_string ts } in
-         st := Trot { t with th = Some h' }; Printf.printf "w %s\n" (string_of_z n)
+       | Some g, [ id; len; ts; clock ] ->
+         let m = { m_id = z_of_string id; m_len = z_of_string len; m_ts = z_of_string ts } in
+         let c = z_of_string clock in
+         let n = snd (t_log bsz g.gs_h c m) in
+         st := Trot { t with g = Some (tg_step bsz g (GWrite (c, m))) }; Printf.printf "w %s\n" (string_of_z n)
        | Some _, _ -> print_endline "w bad")
     | _, _ -> print_endline "?") lines;
+  let all name_str gfs =
+    List.concat_map (fun (d, fs) -> List.map (fun (k, c) -> (dir_str d ^ "/" ^ name_str k, c)) fs) gfs in
   match !st with
   | Rot r ->
-    let fs = (match r.h with Some h -> h.r_fs | None -> r.pre) in
-    dump (List.map (fun (k, c) -> (sname_str k, c)) fs) (fun m -> string_of_z m.m_id ^ ":") r.raw
+    let gfs = (match r.g with Some g -> gs_fs (fun h -> h.r_fs) g | None -> r.pre) in
+    dump (all sname_str gfs) (fun m -> string_of_z m.m_id ^ ":") r.raw
   | Trot t ->
-    let fs = (match t.th with Some h -> h.t_fs | None -> []) in
-    dump (List.map (fun (k, c) -> (tname_str k, c)) fs)
-      (fun m -> string_of_z m.m_id ^ ":" ^ string_of_z m.m_ts ^ ":") t.raw
+    let gfs = (match t.g with Some g -> gs_fs (fun h -> h.t_fs) g | None -> []) in
+    dump (all tname_str gfs) (fun m -> string_of_z m.m_id ^ ":" ^ string_of_z m.m_ts ^ ":") t.raw
   | _ -> ()
 
 let () = run_cases handle
